@@ -71,6 +71,8 @@ type Check struct {
 	CrashOwner bool
 	// Exhaustive is set when a tier enumerates a finite fault grid completely (per tier).
 	Exhaustive func(tier string) bool
+	// SampledOracles: oracle ids whose detector is itself sampling (race detector): confirmed by repeated replays, not shrunk.
+	SampledOracles map[string]bool
 	// Budget: wall seconds per tier.
 	QuickBudget, ThoroughBudget int
 }
